@@ -74,9 +74,6 @@ func FuzzExtract(f *testing.F) {
 		vs, _ := runH(c)
 		var unknown []vk.Violation
 		for _, v := range vs {
-			if openKnown()["traceparent_v00_trailing_dash"] && knownV00TrailingDash(c, v) {
-				continue
-			}
 			unknown = append(unknown, v)
 		}
 		failOn(t, unknown)
